@@ -5,7 +5,7 @@ or tar2sqfs).  Then: rdsquashfs -d [-p R]  +  rdsquashfs -u / -p R  ->  gensquas
 parser(rebuilt) must equal parser(original) on paths, types, permission bits, owners, symlink targets,
 device numbers and file contents.
 """
-import os, hashlib
+import shutil, os, hashlib
 from hypothesis import strategies as st
 import vcommon, vbuild, treemodel, packlib, sqfsimg
 from vcommon import Violation, Inconclusive, CaseInfo, Result, Scratch
@@ -156,11 +156,72 @@ def strat(tier, opts):
     return cases(tier)
 
 
+def boundary_case(which, special=b"zz\rtarget"):
+    """A listing longer than the 128 KiB stream buffer of the pack file reader in which a quoted special byte (CR, quote, backslash,
+    space) of a name falls exactly on / next to the buffer boundary.  The filler names are sized from a first describe run."""
+    gen = vcommon.tool("asan", "gensquashfs")
+    rd = vcommon.tool("asan", "rdsquashfs")
+    base = dict(type="dir", mode=0o755, uid=0, gid=0, mtime=0, xattrs={})
+    lens = [180] * 640
+
+    def nodes_for(lens):
+        return [dict(base, path=(b"f%04d" % i).ljust(n_, b"p")) for i, n_ in enumerate(lens)] + [dict(base, path=special, mode=0o750, uid=7, gid=8)]
+    want = 131072 - 1 + which      # offset of the special byte in the listing
+    with Scratch("c16b") as sc:
+        for attempt in range(4):
+            src = os.path.join(sc, "src%d" % attempt)
+            os.mkdir(src)
+            treemodel.materialise_dir(nodes_for(lens), src, 4096, set_times=False)
+            img = os.path.join(sc, "b%d.sqfs" % attempt)
+            r = vcommon.run([gen, "--pack-dir", src, "-c", "gzip", "-q", "-k", img], timeout=120)
+            if r.rc != 0:
+                raise Inconclusive("image build: %s" % r.err[-200:])
+            d = vcommon.run([rd, "-d", img], timeout=60)
+            if d.rc != 0:
+                raise Violation("rdsquashfs --describe failed on a valid image: %s" % d.err[-200:].decode(errors="replace"), None, sig="describe-failed")
+            k = next((i for i, c in enumerate(special) if c in QUOTE_BYTES), 0)
+            at = d.out.find(special.replace(b"\\", b"\\\\").replace(b'"', b'\\"'))
+            if at < 0:
+                raise Inconclusive("special name not found in the listing")
+            pos = at + k
+            delta = want - pos
+            if delta == 0:
+                break
+            # lengthen / shorten filler names (each stays within 100..250 bytes)
+            i = 0
+            while delta != 0 and i < len(lens):
+                step = max(-(lens[i] - 100), min(250 - lens[i], delta))
+                lens[i] += step
+                delta -= step
+                i += 1
+            if delta > 0:
+                lens += [180] * (delta // 194 + 1)
+            shutil.rmtree(src, ignore_errors=True)
+        else:
+            raise Inconclusive("could not align the listing")
+    case = dict(nodes=nodes_for(lens), root_style="none", rootname=b"unpacked", B=4096, comp="gzip")
+    info = check_case(case, {"prop": PROP})
+    return CaseInfo(True, ["listing_crosses_128k_special_at%+d" % which])
+
+
 def main(tier, seed, scale=1.0):
     vbuild.build("asan")
     n = int((5000 if tier == "quick" else 80000) * scale)
     res = Result(PROP)
     vcommon.run_corpus(PROP, check_case, {"prop": PROP}, res)
+    # directed: special bytes on the boundary of the reader's buffer
+    for which, special in ((0, b"zz\rtarget"), (1, b"zz\rtarget"), (0, b"zz\"q"), (0, b"zz\\b"), (0, b"zz sp")) if scale >= 0.2 else ():
+        try:
+            ci = boundary_case(which, special)
+            res.evaluations += 1
+            res.nontrivial.add("boundary-%d-%s" % (which, special.hex()))
+            for c in ci.classes:
+                res.add_class(c)
+        except Inconclusive:
+            res.inconclusive += 1
+        except Violation as v:
+            res.violations.append(("listing of %d bytes with %r at offset 131071%+d: %s" % (131072, special, which, v.what),
+                                   vcommon.save_replay(PROP, dict(boundary=True, which=which, special=special), v.what)))
     for d in vcommon.run_shards("c16", "check_case", "strat", n, seed, tier, {"prop": PROP}):
         res.merge_shard(d)
     res.rule = ("Hypothesis trees with names, symlink targets and unpack roots over all bytes except NUL, '/', newline, with space, tab, quote, "
@@ -174,4 +235,15 @@ def main(tier, seed, scale=1.0):
 
 def replay(path):
     vbuild.build("asan")
+    c = vcommon.load_replay(path)["case"]
+    if isinstance(c, dict) and c.get("boundary"):
+        res = Result(PROP)
+        res.evaluations = 1
+        try:
+            boundary_case(c["which"], c["special"])
+        except Violation as v:
+            res.violations.append((v.what, path))
+        except Inconclusive:
+            pass
+        return res
     return vcommon.replay_case(PROP, check_case, path)
